@@ -271,8 +271,11 @@ where
     // Distance of each node to itself is the default value
     for node in graph.node_identifiers() {
         let index = graph.to_index(node);
-        set_object(m_dist, index, index, K::default());
-        set_object(m_prev, index, index, Some(index));
+        // keep a negative self loop, it is a negative cycle
+        if is_greater(m_dist, index, index, K::default()) {
+            set_object(m_dist, index, index, K::default());
+            set_object(m_prev, index, index, Some(index));
+        }
     }
 
     // Perform the Floyd-Warshall algorithm
